@@ -446,6 +446,9 @@ def one_taker_per_datagram(ctx, repo, rule):
 
 def check_queue_class(ctx, repo):
     c = repo.cls(QUEUE_CLS)
+    ctx.rule("R11", "whose packet it is: the identifier pair the addressed-to-me test compares is the one in the packet's OWN header (the first of the datagram), whatever the payload contains - a foreign packet whose payload embeds a complete header naming this connection still reads as foreign (packet handler interpreted on concrete nested frames)")
+    from .c04 import outer_header_wins as _ohw7
+    _ohw7(ctx, repo, "R11")
     queue_model(ctx, repo, "R3")
     nothing_queued_is_lost(ctx, repo, "R3")
     ctx.rule("R10", "one taker per datagram: the long-lived consumers `_connect` starts and the handler classes the connection builds requests from accept pairwise disjoint verbs (can_handle interpreted on every verb the protocol modules name) - the consumers poll one queue and nothing else orders them")
